@@ -274,7 +274,10 @@ def run_history(hist, workdir, tid, trunc):
                     line = [r['resid'], ''.join(r['resname']), ''.join(r['name']), r['nr']]
                     line += [fixed_to_float(x, d) for x in r['pos']]
                     line += [fixed_to_float(x, d + 1) for x in r['vel']]
-                    g.writeline(line if tid % 3 else tuple(line))
+                    if tid % 4 == 1:
+                        g.writelines([line])            # a block of one record
+                    else:
+                        g.writeline(line if tid % 3 else tuple(line))
             except Exception as exc:
                 out = 'OSError' if isinstance(exc, OSError) else type(exc).__name__
             if log:
@@ -475,11 +478,21 @@ def random_file_trace(seed, tid, workdir, max_recs, trunc=True):
             handed = np.array(boxm, float)
             g.box_matrix = handed
             handed[...] = 777.0          # the writer keeps the value it was given, not the caller's array
-        if rng.random() < 0.5:
+        how = rng.random()
+        if how < 0.3:
             g.writelines(lines)
-        else:
+        elif how < 0.6:
             for ln in lines:
                 g.writeline(ln)
+        else:
+            # the records handed over in several blocks (of one, of several, empty ones in between)
+            k = 0
+            while k < len(lines):
+                m = int(rng.choice([0, 1, 1, 2, 5]))
+                g.writelines(lines[k:k + m])
+                k += m
+            if rng.random() < 0.3:
+                g.writelines([])
         g.close()
     except Exception as exc:
         out = type(exc).__name__
